@@ -260,6 +260,12 @@ def run(ctx):
             f"('data', {wid[0]})" in rf and f"('data', {nar[0]})" in rt_
     ctx.ob("U5", AF, "AXIUpConverter", "write data narrow -> wide (data and strb), read data wide -> narrow", ok,
            "" if ok else f"{ {k: widths(v) for k, v in conv.items()} }")
+    # the data paths above are stream.StrideConverter: its packing element carries the burst's `last` (WLAST / RLAST of the converted
+    # burst) -- same obligation as C03.S3, reported here because the converted burst is what this property is about
+    ctx.rule("U6", "the packing element behind the converters' narrow->wide data paths (stream._UpConverter, via StrideConverter) puts "
+                   "`last` (and `first`) on the wide beat of the narrow beat that carried it, and only there", min_sites=2)
+    from ..rules_stream import s3_word_flags
+    s3_word_flags(ctx, "U6", fx_of(ctx, "litex/soc/interconnect/stream.py", "_UpConverter"), "_UpConverter")
 
     # ================================================================ U3
     fx = fx_of(ctx, AF, "AXIDownConverter")
